@@ -668,86 +668,115 @@ func checkTSOCounters(p *Prog, r *Roles, res *Result, rule string) {
 				role = "committed counter"
 			}
 			n := 0
+			// judge one use of the counter's address. f is the method of the TSO the use belongs to (directly, or
+			// through helpers that are handed the address and use it only with sync/atomic); isCounter recognises the
+			// address in the frame of the use.
+			var judge func(ref ssa.Instruction, f *ssa.Function, via string, isCounter func(ssa.Value) bool, depth int)
+			judge = func(ref ssa.Instruction, f *ssa.Function, via string, isCounter func(ssa.Value) bool, depth int) {
+				if _, dbg := ref.(*ssa.DebugRef); dbg {
+					return
+				}
+				c, isCall := ref.(ssa.CallInstruction)
+				an, isAtomic := "", false
+				if isCall {
+					an, isAtomic = isAtomicCall(c)
+				}
+				// the address handed to a helper of the repository: its uses of the parameter are uses of the counter by f
+				if isCall && !isAtomic && depth < 2 {
+					if sc := c.Common().StaticCallee(); sc != nil && sc.Blocks != nil && !c.Common().IsInvoke() {
+						if _, isGo := ref.(*ssa.Go); !isGo {
+							var prms []*ssa.Parameter
+							for i, a := range c.Common().Args {
+								if isCounter(a) && i < len(sc.Params) {
+									prms = append(prms, sc.Params[i])
+								}
+							}
+							if len(prms) == 1 && prms[0].Referrers() != nil {
+								prm := prms[0]
+								for _, r2 := range *prm.Referrers() {
+									judge(r2, f, via+" via "+funcName(sc), func(v ssa.Value) bool { return resolve(v) == ssa.Value(prm) }, depth+1)
+								}
+								return
+							}
+						}
+					}
+				}
+				n++
+				construct := fmt.Sprintf("%s.%s accessed in %s%s #%d", tname, fv.Name(), funcName(f), via, n)
+				if !isAtomic {
+					res.bad(rule, construct, p.pos(ref.Pos()), "the "+role+" is accessed without sync/atomic: allocations are no longer one atomic step")
+					return
+				}
+				isWrite := an != "LoadUint64"
+				if !isWrite || (fv != dealt && fv != committed) {
+					res.ok(rule, construct, p.pos(ref.Pos()), role+": atomic."+an)
+					return
+				}
+				// writers of the dealt counter, and of the committed counter (the revision reads are served at): it
+				// has no Deal, everything else is the same - Init stores, Commit raises under a guard
+				isImplOf := func(m *types.Func) bool {
+					for _, x := range p.implsOf(m) {
+						if x == f {
+							return true
+						}
+					}
+					return false
+				}
+				switch {
+				case an == "AddUint64" && isImplOf(r.TSODeal) && fv == dealt:
+					res.ok(rule, construct, p.pos(ref.Pos()), "the allocation itself")
+				case an == "StoreUint64" && isImplOf(r.TSOInit):
+					res.ok(rule, construct, p.pos(ref.Pos()), "Init (who may call it: R3)")
+				case an == "CompareAndSwapUint64" && isImplOf(r.TSOCommit):
+					old, nw := c.Common().Args[1], c.Common().Args[2]
+					g := false
+					for _, cf := range dominatingFacts(ref.Block()) {
+						if cf.X == nil {
+							continue
+						}
+						if resolve(cf.X) == resolve(old) && resolve(cf.Y) == resolve(nw) && ((cf.Op == token.LSS && cf.Want) || (cf.Op == token.GEQ && !cf.Want)) {
+							g = true
+						}
+						if resolve(cf.Y) == resolve(old) && resolve(cf.X) == resolve(nw) && ((cf.Op == token.GTR && cf.Want) || (cf.Op == token.LEQ && !cf.Want)) {
+							g = true
+						}
+					}
+					// old must be a load of the same counter
+					lc, isLoad := resolve(old).(*ssa.Call)
+					if isLoad {
+						ln, _ := isAtomicCall(lc)
+						isLoad = ln == "LoadUint64" && isCounter(lc.Common().Args[0])
+					}
+					// .. and a lost compare-and-swap is retried: the CAS sits in a loop that re-loads the counter (giving
+					// up after losing to a concurrent raise to a smaller value leaves the counter below the new value)
+					retried := false
+					if isLoad {
+						if lp := loopOf(ref.Block()); lp != nil && lp[lc.Block()] {
+							retried = true
+						}
+					}
+					if g && isLoad && !retried {
+						res.bad(rule, construct, p.pos(ref.Pos()), "the raise of the "+role+" is a single compare-and-swap that is not retried: when two Commit calls overlap (leader start and a follower sync that arrives late) the one with the larger value can lose the swap and give up, and the counter stays below the value that was to be committed (allocator below the committed revision: the next revision handed out is one reads already cover)")
+					} else if g && isLoad {
+						res.ok(rule, construct, p.pos(ref.Pos()), "monotone raise: CAS(old, new) under old < new with old loaded from the counter, retried in a loop")
+					} else {
+						res.bad(rule, construct, p.pos(ref.Pos()), "Commit moves the "+role+" without the guard old < new on the loaded value: the counter can go backwards (dealt counter: revisions handed out twice; committed counter: the read revision drops below acknowledged writes)")
+					}
+				default:
+					if fv == committed {
+						res.bad(rule, construct, p.pos(ref.Pos()), fmt.Sprintf("atomic.%s writes the committed counter outside Init(store)/Commit(guarded CAS): a value that arrives late (a follower's sync overtaken by this node's start as leader) lowers the revision reads are served at below writes that were already acknowledged", an))
+					} else {
+						res.bad(rule, construct, p.pos(ref.Pos()), fmt.Sprintf("atomic.%s writes the dealt counter outside Deal(+1)/Init(store)/Commit(guarded CAS): revisions can repeat or go backwards", an))
+					}
+				}
+			}
 			for _, fa := range p.fields().addrs[fv] {
-				f := fa.Parent()
+				fa := fa
 				for _, ref := range *fa.Referrers() {
-					if _, dbg := ref.(*ssa.DebugRef); dbg {
-						continue
-					}
-					n++
-					construct := fmt.Sprintf("%s.%s accessed in %s #%d", tname, fv.Name(), funcName(f), n)
-					c, isCall := ref.(ssa.CallInstruction)
-					an, isAtomic := "", false
-					if isCall {
-						an, isAtomic = isAtomicCall(c)
-					}
-					if !isAtomic {
-						res.bad(rule, construct, p.pos(ref.Pos()), "the "+role+" is accessed without sync/atomic: allocations are no longer one atomic step")
-						continue
-					}
-					isWrite := an != "LoadUint64"
-					if !isWrite || (fv != dealt && fv != committed) {
-						res.ok(rule, construct, p.pos(ref.Pos()), role+": atomic."+an)
-						continue
-					}
-					// writers of the dealt counter, and of the committed counter (the revision reads are served at): it
-					// has no Deal, everything else is the same - Init stores, Commit raises under a guard
-					isImplOf := func(m *types.Func) bool {
-						for _, x := range p.implsOf(m) {
-							if x == f {
-								return true
-							}
-						}
-						return false
-					}
-					switch {
-					case an == "AddUint64" && isImplOf(r.TSODeal) && fv == dealt:
-						res.ok(rule, construct, p.pos(ref.Pos()), "the allocation itself")
-					case an == "StoreUint64" && isImplOf(r.TSOInit):
-						res.ok(rule, construct, p.pos(ref.Pos()), "Init (who may call it: R3)")
-					case an == "CompareAndSwapUint64" && isImplOf(r.TSOCommit):
-						old, nw := c.Common().Args[1], c.Common().Args[2]
-						g := false
-						for _, cf := range dominatingFacts(ref.Block()) {
-							if cf.X == nil {
-								continue
-							}
-							if resolve(cf.X) == resolve(old) && resolve(cf.Y) == resolve(nw) && ((cf.Op == token.LSS && cf.Want) || (cf.Op == token.GEQ && !cf.Want)) {
-								g = true
-							}
-							if resolve(cf.Y) == resolve(old) && resolve(cf.X) == resolve(nw) && ((cf.Op == token.GTR && cf.Want) || (cf.Op == token.LEQ && !cf.Want)) {
-								g = true
-							}
-						}
-						// old must be a load of the same counter
-						lc, isLoad := resolve(old).(*ssa.Call)
-						if isLoad {
-							ln, _ := isAtomicCall(lc)
-							lfa, okfa := lc.Common().Args[0].(*ssa.FieldAddr)
-							isLoad = ln == "LoadUint64" && okfa && fieldOf(lfa) == fv
-						}
-						// .. and a lost compare-and-swap is retried: the CAS sits in a loop that re-loads the counter (giving
-						// up after losing to a concurrent raise to a smaller value leaves the counter below the new value)
-						retried := false
-						if isLoad {
-							if lp := loopOf(ref.Block()); lp != nil && lp[lc.Block()] {
-								retried = true
-							}
-						}
-						if g && isLoad && !retried {
-							res.bad(rule, construct, p.pos(ref.Pos()), "the raise of the "+role+" is a single compare-and-swap that is not retried: when two Commit calls overlap (leader start and a follower sync that arrives late) the one with the larger value can lose the swap and give up, and the counter stays below the value that was to be committed (allocator below the committed revision: the next revision handed out is one reads already cover)")
-						} else if g && isLoad {
-							res.ok(rule, construct, p.pos(ref.Pos()), "monotone raise: CAS(old, new) under old < new with old loaded from the counter, retried in a loop")
-						} else {
-							res.bad(rule, construct, p.pos(ref.Pos()), "Commit moves the "+role+" without the guard old < new on the loaded value: the counter can go backwards (dealt counter: revisions handed out twice; committed counter: the read revision drops below acknowledged writes)")
-						}
-					default:
-						if fv == committed {
-							res.bad(rule, construct, p.pos(ref.Pos()), fmt.Sprintf("atomic.%s writes the committed counter outside Init(store)/Commit(guarded CAS): a value that arrives late (a follower's sync overtaken by this node's start as leader) lowers the revision reads are served at below writes that were already acknowledged", an))
-						} else {
-							res.bad(rule, construct, p.pos(ref.Pos()), fmt.Sprintf("atomic.%s writes the dealt counter outside Deal(+1)/Init(store)/Commit(guarded CAS): revisions can repeat or go backwards", an))
-						}
-					}
+					judge(ref, fa.Parent(), "", func(v ssa.Value) bool {
+						x, ok := resolve(v).(*ssa.FieldAddr)
+						return ok && fieldOf(x) == fv
+					}, 0)
 				}
 			}
 		}
